@@ -646,6 +646,10 @@ bool BW_MidiSequencer::buildSmfTrackData(const std::vector<std::vector<uint8_t> 
                 int len = snprintf(error, 150, "buildTrackData: Can't read variable-length value at begin of track %d.\n", (int)tk);
                 if((len > 0) && (len < 150))
                     m_parsingErrorsString += std::string(error, (size_t)len);
+                // Don't keep half-built track data and positions that point nowhere
+                buildSmfSetupReset(0);
+                m_trackBeginPosition = m_currentPosition;
+                m_loopBeginPosition = m_currentPosition;
                 return false;
             }
 
@@ -672,6 +676,10 @@ bool BW_MidiSequencer::buildSmfTrackData(const std::vector<std::vector<uint8_t> 
                 int len = snprintf(error, 150, "buildTrackData: Fail to parse event in the track %d.\n", (int)tk);
                 if((len > 0) && (len < 150))
                     m_parsingErrorsString += std::string(error, (size_t)len);
+                // Don't keep half-built track data and positions that point nowhere
+                buildSmfSetupReset(0);
+                m_trackBeginPosition = m_currentPosition;
+                m_loopBeginPosition = m_currentPosition;
                 return false;
             }
 
